@@ -1001,6 +1001,12 @@ func c13ReaderLoops(c *Ctx, g *load.G) {
 func c13RangePairs(c *Ctx, g *load.G) {
 	r := c.R
 	n := 0
+	// the function that holds the range state machine of the class parser (the loop that separates single members
+	// from ranges): CharClassMatcher.parse or the helper it delegates that phase to
+	var machineFd *ast.FuncDecl
+	if cp := c.classParse(); cp != nil {
+		machineFd = cp.extractFd
+	}
 	for _, sfx := range []string{"ast", "builder", ""} {
 		p := g.Pkg(sfx)
 		for _, fd := range load.AllFuncDecls(p) {
@@ -1053,7 +1059,7 @@ func c13RangePairs(c *Ctx, g *load.G) {
 							okStore = true // concatenation / copy of a pair slice
 						case isSelfOrEmpty && !x.Ellipsis.IsValid() && len(x.Args) == 3:
 							okStore = true // one pair
-						case isSelfOrEmpty && !x.Ellipsis.IsValid() && len(x.Args) == 2 && fn == "parse":
+						case isSelfOrEmpty && !x.Ellipsis.IsValid() && len(x.Args) == 2 && fd == machineFd:
 							okStore = true // start / end of the range state machine (each start is followed by its end)
 						default:
 							why = "append form " + t + " does not add whole pairs"
@@ -1071,11 +1077,37 @@ func c13RangePairs(c *Ctx, g *load.G) {
 				switch x := nd.(type) {
 				case *ast.AssignStmt:
 					for i, l := range x.Lhs {
-						if sel, ok := l.(*ast.SelectorExpr); ok && sel.Sel.Name == "Ranges" && i < len(x.Rhs) {
-							if namedOf(p.TypesInfo.TypeOf(sel.X)) == "CharClassMatcher" {
-								check(x.Pos(), nospace(l), x.Rhs[i])
+						sel, ok := l.(*ast.SelectorExpr)
+						if !ok || sel.Sel.Name != "Ranges" || namedOf(p.TypesInfo.TypeOf(sel.X)) != "CharClassMatcher" {
+							continue
+						}
+						if i < len(x.Rhs) && len(x.Rhs) == len(x.Lhs) {
+							check(x.Pos(), nospace(l), x.Rhs[i])
+							continue
+						}
+						// result i of a helper of the package: the value the helper returns there
+						n++
+						okStore, why := false, "the value comes from "+nospace(x.Rhs[0])+", which is not known to keep low/high pairs together"
+						if ce, isCall := x.Rhs[0].(*ast.CallExpr); isCall && len(x.Rhs) == 1 {
+							var id *ast.Ident
+							switch f := ce.Fun.(type) {
+							case *ast.Ident:
+								id = f
+							case *ast.SelectorExpr:
+								id = f.Sel
+							}
+							var helper *ast.FuncDecl
+							for _, h := range load.AllFuncDecls(p) {
+								if id != nil && h.Body != nil && p.TypesInfo.Uses[id] == p.TypesInfo.Defs[h.Name] {
+									helper = h
+								}
+							}
+							if helper != nil {
+								okStore, why = pairResult(helper, i, helper == machineFd)
 							}
 						}
+						r.Check(okStore, "C13-e", fmt.Sprintf("G.%s.%s:Ranges-store(%s#%d)", p.Types.Name(), fn, nospace(x.Rhs[0]), i), "", g.Where(x.Pos()), "keeps the low/high pair structure",
+							why+": an odd-length Ranges makes the stride-2 loops read Ranges[i+1] out of range (Go panic trace) or pair the wrong end-points")
 					}
 				case *ast.KeyValueExpr:
 					if nospace(x.Key) == "Ranges" {
@@ -1087,6 +1119,80 @@ func c13RangePairs(c *Ctx, g *load.G) {
 		}
 	}
 	r.Min("C13-e Ranges writers", 5, n)
+}
+
+// pairResult: the i-th result of helper is a local slice that is only ever nil, empty, extended by whole pairs, or -
+// when helper holds the class parser's range state machine - by its start / end appends.
+func pairResult(helper *ast.FuncDecl, i int, machine bool) (bool, string) {
+	name := ""
+	k := 0
+	if helper.Type.Results != nil {
+		for _, f := range helper.Type.Results.List {
+			for _, nm := range f.Names {
+				if k == i {
+					name = nm.Name
+				}
+				k++
+			}
+		}
+	}
+	for _, rs := range returnsOf(helper) {
+		if len(rs.Results) == 0 {
+			continue
+		}
+		if i >= len(rs.Results) {
+			return false, "a return of " + helper.Name.Name + " has no result " + fmt.Sprint(i)
+		}
+		id, ok := rs.Results[i].(*ast.Ident)
+		if !ok {
+			return false, helper.Name.Name + " returns " + nospace(rs.Results[i])
+		}
+		if id.Name == "nil" {
+			continue
+		}
+		if name != "" && name != id.Name {
+			return false, helper.Name.Name + " returns different slices"
+		}
+		name = id.Name
+	}
+	if name == "" {
+		return false, "the result of " + helper.Name.Name + " could not be traced"
+	}
+	ok, why := true, ""
+	ast.Inspect(helper.Body, func(nd ast.Node) bool {
+		as, isAs := nd.(*ast.AssignStmt)
+		if !isAs {
+			return true
+		}
+		for j, l := range as.Lhs {
+			if nospace(l) != name || len(as.Lhs) != len(as.Rhs) {
+				continue
+			}
+			rhs := as.Rhs[j]
+			t := nospace(rhs)
+			if t == "nil" || t == "[]rune{}" {
+				continue
+			}
+			if ce, isCall := rhs.(*ast.CallExpr); isCall {
+				switch callName(ce) {
+				case "make":
+					if len(ce.Args) >= 2 && nospace(ce.Args[1]) == "0" {
+						continue
+					}
+				case "append":
+					if nospace(ce.Args[0]) == name && !ce.Ellipsis.IsValid() && (len(ce.Args) == 3 || (len(ce.Args) == 2 && machine)) {
+						continue
+					}
+					if nospace(ce.Args[0]) == name && ce.Ellipsis.IsValid() && len(ce.Args) == 2 && strings.HasSuffix(nospace(ce.Args[1]), ".Ranges") {
+						continue
+					}
+				}
+			}
+			ok, why = false, helper.Name.Name+" builds the slice with "+t+", which does not add whole pairs"
+		}
+		return true
+	})
+	return ok, why
 }
 
 // c13ArrayBounds: indices into fixed-size arrays are bounded.
@@ -1480,18 +1586,6 @@ func c13NilMaps(c *Ctx, g *load.G) {
 func c13ConstIndex(c *Ctx, g *load.G) {
 	r := c.R
 	n := 0
-	lenTest := func(cond, x string) bool {
-		// conjuncts of cond that prove len(x) >= 1
-		for _, cj := range strings.Split(cond, "&&") {
-			cj = strings.TrimSuffix(strings.TrimPrefix(cj, "("), ")")
-			for _, ok := range []string{"len(" + x + ")>0", "len(" + x + ")>=1", "len(" + x + ")!=0", "len(" + x + ")==1", "len(" + x + ")>1", "len(" + x + ")>=2", "len(" + x + ")==2", "0<len(" + x + ")"} {
-				if cj == ok {
-					return true
-				}
-			}
-		}
-		return false
-	}
 	for _, suffix := range []string{"", "ast", "builder"} {
 		pkg := g.Pkg(suffix)
 		if pkg == nil {
@@ -1542,44 +1636,7 @@ func c13ConstIndex(c *Ctx, g *load.G) {
 					}
 					n++
 					construct := "G." + suffix + "." + load.RecvName(fd) + "." + fd.Name.Name + ":index " + x + "[" + sub + "]"
-					proved := ""
-					// (i) enclosing conditions (if / && left operand)
-					for k := len(stack) - 2; k >= 0 && proved == ""; k-- {
-						switch p := stack[k].(type) {
-						case *ast.BinaryExpr:
-							if p.Op == token.LAND && p.Y.Pos() <= ix.Pos() && ix.End() <= p.Y.End() && lenTest(nospace(p.X), x) {
-								proved = "left conjunct " + nospace(p.X)
-							}
-						case *ast.IfStmt:
-							if p.Body.Pos() <= ix.Pos() && ix.End() <= p.Body.End() && lenTest(nospace(p.Cond), x) {
-								proved = "enclosing if " + nospace(p.Cond)
-							}
-						}
-					}
-					// (ii) early exit after the last assignment to x
-					if proved == "" {
-						var lastAssign, guard token.Pos
-						ast.Inspect(fd.Body, func(m ast.Node) bool {
-							switch y := m.(type) {
-							case *ast.AssignStmt:
-								for _, l := range y.Lhs {
-									if nospace(l) == x && y.Pos() < ix.Pos() {
-										lastAssign = y.Pos()
-									}
-								}
-							case *ast.IfStmt:
-								if y.End() < ix.Pos() && y.Else == nil && (nospace(y.Cond) == "len("+x+")==0" || nospace(y.Cond) == "len("+x+")<1") && len(y.Body.List) > 0 {
-									if _, isRet := y.Body.List[len(y.Body.List)-1].(*ast.ReturnStmt); isRet {
-										guard = y.Pos()
-									}
-								}
-							}
-							return true
-						})
-						if guard.IsValid() && guard > lastAssign {
-							proved = "early exit on len(" + x + ") == 0 at " + g.Where(guard)
-						}
-					}
+					proved := nonEmptyProvedAt(g, pkg, fd, ix, x, 0)
 					r.Check(proved != "", "C13-j", construct, "", g.Where(ix.Pos()), proved, "no length test of "+x+" dominates the subscript: an empty "+x+" (an empty code block, class or rule list) panics with index out of range")
 					return true
 				})
@@ -1587,6 +1644,122 @@ func c13ConstIndex(c *Ctx, g *load.G) {
 		}
 	}
 	r.Min("C13-j constant subscripts", 6, n)
+}
+
+// lenTestProves: a conjunct of cond proves len(x) >= 1.
+func lenTestProves(cond, x string) bool {
+	for _, cj := range strings.Split(cond, "&&") {
+		cj = strings.TrimSuffix(strings.TrimPrefix(cj, "("), ")")
+		for _, ok := range []string{"len(" + x + ")>0", "len(" + x + ")>=1", "len(" + x + ")!=0", "len(" + x + ")==1", "len(" + x + ")>1", "len(" + x + ")>=2", "len(" + x + ")==2", "0<len(" + x + ")"} {
+			if cj == ok {
+				return true
+			}
+		}
+	}
+	return false
+}
+
+// nonEmptyProvedAt: why x (a string or slice expression) is known to be non-empty where node stands in fd: a conjunct
+// to its left, an enclosing if or switch clause, an early exit on emptiness after the last assignment to x, or - when
+// x is a parameter the function does not reassign - the same at every call site of fd in the package. "" = not proved.
+func nonEmptyProvedAt(g *load.G, pkg *packages.Package, fd *ast.FuncDecl, node ast.Node, x string, depth int) string {
+	proved := ""
+	var stack []ast.Node
+	var path []ast.Node
+	ast.Inspect(fd.Body, func(nd ast.Node) bool {
+		if nd == nil {
+			stack = stack[:len(stack)-1]
+			return true
+		}
+		stack = append(stack, nd)
+		if nd == node {
+			path = append([]ast.Node{}, stack...)
+		}
+		return true
+	})
+	for k := len(path) - 2; k >= 0 && proved == ""; k-- {
+		switch p := path[k].(type) {
+		case *ast.BinaryExpr:
+			if p.Op == token.LAND && p.Y.Pos() <= node.Pos() && node.End() <= p.Y.End() && lenTestProves(nospace(p.X), x) {
+				proved = "left conjunct " + nospace(p.X)
+			}
+		case *ast.IfStmt:
+			if p.Body.Pos() <= node.Pos() && node.End() <= p.Body.End() && lenTestProves(nospace(p.Cond), x) {
+				proved = "enclosing if " + nospace(p.Cond)
+			}
+		case *ast.CaseClause:
+			// a clause of a condition switch: its own condition holds in its body
+			inBody := len(p.Body) > 0 && p.Body[0].Pos() <= node.Pos() && node.End() <= p.End()
+			if inBody && len(p.List) == 1 && k > 1 {
+				if sw, ok := path[k-2].(*ast.SwitchStmt); ok && sw.Tag == nil && lenTestProves(nospace(p.List[0]), x) {
+					proved = "enclosing case " + nospace(p.List[0])
+				}
+			}
+		}
+	}
+	// early exit after the last assignment to x
+	if proved == "" {
+		var lastAssign, guard token.Pos
+		ast.Inspect(fd.Body, func(m ast.Node) bool {
+			switch y := m.(type) {
+			case *ast.AssignStmt:
+				for _, l := range y.Lhs {
+					if nospace(l) == x && y.Pos() < node.Pos() {
+						lastAssign = y.Pos()
+					}
+				}
+			case *ast.IfStmt:
+				if y.End() < node.Pos() && y.Else == nil && (nospace(y.Cond) == "len("+x+")==0" || nospace(y.Cond) == "len("+x+")<1") && len(y.Body.List) > 0 {
+					if _, isRet := y.Body.List[len(y.Body.List)-1].(*ast.ReturnStmt); isRet {
+						guard = y.Pos()
+					}
+				}
+			}
+			return true
+		})
+		if guard.IsValid() && guard > lastAssign {
+			proved = "early exit on len(" + x + ") == 0 at " + g.Where(guard)
+		}
+	}
+	// a parameter: every caller knows
+	if proved == "" && depth < 2 && token.IsIdentifier(x) {
+		idx, i := -1, 0
+		if fd.Type.Params != nil {
+			for _, f := range fd.Type.Params.List {
+				for _, nm := range f.Names {
+					if nm.Name == x {
+						idx = i
+					}
+					i++
+				}
+			}
+		}
+		reassigned := false
+		ast.Inspect(fd.Body, func(m ast.Node) bool {
+			if as, ok := m.(*ast.AssignStmt); ok {
+				for _, l := range as.Lhs {
+					if nospace(l) == x {
+						reassigned = true
+					}
+				}
+			}
+			return true
+		})
+		if idx >= 0 && !reassigned {
+			fl := newFlow(pkg, nil)
+			sites := fl.callSites(fd)
+			all := len(sites) > 0
+			for _, cs := range sites {
+				if idx >= len(cs.Call.Args) || nonEmptyProvedAt(g, pkg, cs.In, cs.Call, nospace(cs.Call.Args[idx]), depth+1) == "" {
+					all = false
+				}
+			}
+			if all {
+				proved = fmt.Sprintf("parameter: non-empty at each of its %d call sites", len(sites))
+			}
+		}
+	}
+	return proved
 }
 
 // flagDefs maps flag name -> variable for the flags main defines with <flagset>.Bool / .String (assignment or var spec).
